@@ -152,7 +152,7 @@ package journal
 //@     built(tr.Postings[0], tr.Postings[1], posting.Builder{Credit: (tr.Postings[0].Account == k.Account ? tr.Postings[1].Account : tr.Postings[0].Account),
 //@         Debit: k.Account, Commodity: k.Commodity, Value: mult(cur[k.Commodity] - prev[k.Commodity], q[k])})
 //@ func Valuate$1
-//@   requires d != nil && keysOK(quantities) && reg != nil && reg.accounts != nil
+//@   requires d != nil && keysOK(quantities) && reg != nil && wfAccounts(reg.accounts)
 //@   modifies prices, d.Transactions, d.Transactions[*], reg.accounts.index[*]
 //@   ensures @today: prices == d.Normalized
 //@   ensures @missing: result == nil ==> (forall k amounts.Key :: {key(quantities, k)} (k in quantities) && needsReval(k, quantities, valuation) ==> (k.Commodity in prevPrices) && (k.Commodity in d.Normalized))
@@ -164,6 +164,8 @@ package journal
 //@   loop 1 invariant [C03] [C16] @from: forall j int :: {d.Transactions[j]} old(len(d.Transactions)) <= j && j < len(d.Transactions) ==>
 //@        (exists k amounts.Key :: {key(quantities, k)} (k in quantities) && needsReval(k, quantities, valuation) && prevPrices[k.Commodity] != d.Normalized[k.Commodity]
 //@            && adjFor(d.Transactions[j], k, quantities, prevPrices, d.Normalized))
+//@   ensures wfAccounts(reg.accounts)
+//@   loop 1 invariant wfAccounts(reg.accounts)
 //@   loop 1 invariant prices == d.Normalized && keysOK(quantities) && d.Date == old(d.Date) && d.Normalized == old(d.Normalized)
 //@   loop 1 invariant forall k amounts.Key :: {$seen[k]} $seen[k] && needsReval(k, quantities, valuation) ==> (k.Commodity in prevPrices) && (k.Commodity in d.Normalized)
 //@   loop 1 invariant len(d.Transactions) >= old(len(d.Transactions)) && (forall j int :: {d.Transactions[j]} 0 <= j && j < old(len(d.Transactions)) ==> d.Transactions[j] == old(d.Transactions[j]))
@@ -231,7 +233,7 @@ package journal
 // CloseAccounts (the constructor): the closing days are the days of ALL period start dates of the
 // partition - the result of StartDates goes unchanged into Builder.Days and that into the set.
 //@ func CloseAccounts
-//@   requires wfBuilder(j) && reg != nil && reg.accounts != nil
+//@   requires wfBuilder(j) && reg != nil && wfAccounts(reg.accounts)
 //@   modifies j.days[*], reg.accounts.index[*]
 //@   callback StartDates=0
 //@   callback Days=1
@@ -241,14 +243,17 @@ package journal
 //@   ensures @days: enable ==> tlen() == old(tlen()) + 3 && targ("Days", 0, old(tlen()) + 1) == tres("StartDates", old(tlen()))
 //@        && targ("FromSlice", 0, old(tlen()) + 2) == tres("Days", old(tlen()) + 1)
 //
+// (C02: "with period closing, income and expense rows restart at each period start and their previous
+// total is carried by the equity account" - ONLY income and expense accounts are accumulated for closing;
+// every other row, the other equity accounts included, keeps the plain sum of its bookings.)
 //@ func CloseAccounts$2
 //@   requires p != nil && validAccount(p.Account) && p.Commodity != nil && keysOK(quantities) && values != nil && quantities != values
 //@   ensures keysOK(quantities)
 //@   modifies quantities[*], values[*]
 //@   ensures result == nil
-//@   ensures @skip: isAL(p.Account) || p.Account == equityAccount ==> dom(quantities) == old(dom(quantities)) && vals(quantities) == old(vals(quantities))
+//@   ensures [C02] @skip: !isIE(p.Account) ==> dom(quantities) == old(dom(quantities)) && vals(quantities) == old(vals(quantities))
 //@        && dom(values) == old(dom(values)) && vals(values) == old(vals(values))
-//@   ensures @acc: !isAL(p.Account) && p.Account != equityAccount ==>
+//@   ensures [C02] @acc: isIE(p.Account) ==>
 //@        dom(quantities) == upd(old(dom(quantities)), amounts.Key{Account: p.Account, Commodity: p.Commodity}, true)
 //@        && vals(quantities) == upd(old(vals(quantities)), amounts.Key{Account: p.Account, Commodity: p.Commodity}, old(quantities[amounts.Key{Account: p.Account, Commodity: p.Commodity}]) + p.Quantity)
 //@        && dom(values) == upd(old(dom(values)), amounts.Key{Account: p.Account, Commodity: p.Commodity}, true)
